@@ -390,10 +390,17 @@ def axiom_audit(module, names, timeout=1200):
                        stderr=subprocess.STDOUT, timeout=timeout)
     out = p.stdout.decode("utf-8", "replace")
     result = {}
-    for m in re.finditer(r"'([^']+)' depends on axioms: \[([^\]]*)\]", out, re.S):
-        result[m.group(1)] = [a.strip() for a in m.group(2).replace("\n", " ").split(",") if a.strip()]
-    for m in re.finditer(r"'([^']+)' does not depend on any axioms", out):
-        result[m.group(1)] = []
+    flat = re.sub(r"\n\s+", " ", out)     # a long axiom list may be wrapped
+    for line in flat.split("\n"):
+        k = line.find("' depends on axioms: [")
+        if line.startswith("'") and k > 0:
+            name = line[1:k]
+            lst = line[k + len("' depends on axioms: ["):].rstrip().rstrip("]")
+            result[name] = [a.strip() for a in lst.split(",") if a.strip()]
+            continue
+        k = line.find("' does not depend on any axioms")
+        if line.startswith("'") and k > 0:
+            result[line[1:k]] = []
     ok = p.returncode == 0 and all(n in result for n in names) and all(
         set(v) <= STD_AXIOMS for v in result.values())
     return ok, result, out
